@@ -12,7 +12,7 @@ func init() {
 	register(&propDef{
 		ID:      "C14",
 		Level:   "other",
-		Explain: "Generator/parser agreement for commands derived from service registrations, decided by taint and structure. Sites are found by ROLE, not by function name: a COMMAND SINK is the first place where a string whose backward slice contains the literal 'route add' and a field of consul's api.CatalogService (service name, tags, addresses) enters a list of strings or is sent on a channel of strings, wherever in the repository it is (today: routecmd.build); a list of the parts of one command (joined without a line break) is not a sink. Calls are followed through function values kept in tables and through small interfaces by type (c14_dyn.go), values through package-level tables and through structs filled by helpers that receive a pointer. (T1) every sink value is stored only where a validator verdict on that very value holds - the fact may be a bool or a nil error, may be established in a helper that returns the command together with its verdict, or at the call sites of a helper that does the storing - and the validator (followed through wrappers) says yes only when route.Parse succeeded on the candidate, produced exactly one definition, that definition is a route add, and route.NewTable accepted it; so a registration that cannot be expressed (weight=abc, a tag containing a quote, a newline injecting a second command) is dropped on its own instead of poisoning the text every later table build parses; (Q1) nothing in the slice of a command escapes with %q/strconv.Quote while the parser (the region of route.Parse) takes quoted text verbatim; (I1) one service's failure affects only that service: every goroutine that (transitively) queries the catalog for one service sends its result exactly once on every path on a channel (a worker that takes the services from a job channel: exactly once per job, staying until the job channel is closed, every service put on the job channel exactly once), the collector loop receives from that channel once per iteration, has no exit after the receive, and iterates exactly as often as the loop that spawned the goroutines (other spelling of the join: the goroutine stores its result into its own slot or under a mutex and signals a sync.WaitGroup on every path, the spawner adds before each go statement and waits after the loop; or the goroutines are started with errgroup.Group.Go and the group is waited for); the function that queries the catalog returns on the error edge (no exit/panic) and returns only its own slice; (P4) in everything route.Parse can reach in its package (also through a table of builder functions or an interface) a float produced by strconv.ParseFloat leaves the parser only where it is known to be finite - the judgement may sit in the parsing function, in a wrapper that receives the float, or in the callers it is returned to (weight=Inf used to crash the process); (N1) the destination in the slice of a command is built with net.JoinHostPort from ServiceAddress (node Address only where ServiceAddress is known to be empty, or through cmp.Or in that order) and ServicePort, no text carried around the loop that emits the commands flows into a command, and each proto= option selects its own scheme prefix (spelled as one case per option word, a table, or the option's value itself used as the scheme under a membership test - the value taken after the prefix proto= or as the value half of a word cut at '=' whose key is compared with proto); (E1) the option words the generator compares with proto=/weight=/redirect= (or, when the word is cut at its '=' first with strings.Cut/SplitN, whose key it compares with proto/weight/redirect) do not pass through os.Expand. Not decided: that the parsed command denotes the registration for every value (string/URL equality after a parse).",
+		Explain: "Generator/parser agreement for commands derived from service registrations, decided by taint and structure. Sites are found by ROLE, not by function name: a COMMAND SINK is the first place where a string whose backward slice contains the literal 'route add' and a field of consul's api.CatalogService (service name, tags, addresses) enters a list of strings or is sent on a channel of strings, wherever in the repository it is (today: routecmd.build); a list of the parts of one command (joined without a line break) is not a sink. Calls are followed through function values kept in tables and through small interfaces by type (c14_dyn.go), values through package-level tables and through structs filled by helpers that receive a pointer. (T1) every sink value is stored only where a validator verdict on that very value holds - the fact may be a bool or a nil error, may be established in a helper that returns the command together with its verdict, or at the call sites of a helper that does the storing - and the validator (followed through wrappers) says yes only when route.Parse succeeded on the candidate, produced exactly one definition, that definition is a route add, and route.NewTable accepted it; so a registration that cannot be expressed (weight=abc, a tag containing a quote, a newline injecting a second command) is dropped on its own instead of poisoning the text every later table build parses; (Q1) nothing in the slice of a command escapes with %q/strconv.Quote while the parser (the region of route.Parse) takes quoted text verbatim; (I1) one service's failure affects only that service: every goroutine that (transitively) queries the catalog for one service sends its result exactly once on every path on a channel (a worker that takes the services from a job channel: exactly once per job, staying until the job channel is closed, every service put on the job channel exactly once), the collector loop receives from that channel once per iteration, has no exit after the receive, and iterates exactly as often as the loop that spawned the goroutines (other spelling of the join: the goroutine stores its result into its own slot - written by index, or through a pointer to the slot it is handed or captures - or under a mutex and signals a sync.WaitGroup on every path, the spawner adds before each go statement and waits after the loop; or the goroutines are started with errgroup.Group.Go and the group is waited for); the function that queries the catalog returns on the error edge (no exit/panic) and returns only its own slice; (P4) in everything route.Parse can reach in its package (also through a table of builder functions or an interface) a float produced by strconv.ParseFloat leaves the parser only where it is known to be finite - the judgement may sit in the parsing function, in a wrapper that receives the float, or in the callers it is returned to (weight=Inf used to crash the process); (N1) the destination in the slice of a command is built with net.JoinHostPort from ServiceAddress (node Address only where ServiceAddress is known to be empty, or through cmp.Or in that order) and ServicePort, no text carried around the loop that emits the commands flows into a command, and each proto= option selects its own scheme prefix (spelled as one case per option word, a table, or the option's value itself used as the scheme under a membership test (comparisons with the scheme words, or a lookup in a list or set of constants) - the value taken after the prefix proto= or as the value half of a word cut at '=' whose key is compared with proto); (E1) the option words the generator compares with proto=/weight=/redirect= (or, when the word is cut at its '=' first with strings.Cut/SplitN, whose key it compares with proto/weight/redirect) do not pass through os.Expand. Not decided: that the parsed command denotes the registration for every value (string/URL equality after a parse).",
 		Run:     runC14,
 		Trusted: []string{"route.Parse is the parser NewTable uses (same function)", "hashicorp/consul/api field contents are arbitrary strings"},
 		Mutants: c14mutants(),
@@ -266,6 +266,24 @@ func c14envAt(blk *ssa.BasicBlock, extra *c14env) c14env {
 	if extra != nil {
 		env.Facts = append(env.Facts, extra.Facts...)
 		env.Nils = append(env.Nils, extra.Nils...)
+	}
+	// a verdict compared with a boolean constant (`switch ok := valid(cmd); ok { case true:`, `if ok == false`) is the
+	// verdict itself
+	for k := 0; k < len(env.Facts) && k < 64; k++ {
+		ft := env.Facts[k]
+		b, ok := ft.Cond.(*ssa.BinOp)
+		if !ok || (b.Op != token.EQL && b.Op != token.NEQ) {
+			continue
+		}
+		for _, pair := range [][2]ssa.Value{{b.X, b.Y}, {b.Y, b.X}} {
+			kb, isK := constBool(pair[1])
+			if _, otherIsK := pair[0].(*ssa.Const); !isK || otherIsK {
+				continue
+			}
+			truth := ((b.Op == token.EQL) == kb) == ft.Truth
+			env.Facts = appendCondFacts(env.Facts, pair[0], truth, 0)
+			break
+		}
 	}
 	for _, ft := range env.Facts {
 		b, ok := ft.Cond.(*ssa.BinOp)
